@@ -27,7 +27,7 @@ FLAVOURS = {
               ["mptcore", "mptio", "mptplot", "mptloader", "mpt++"]),
     "fuzz": ("clang-14", "clang++-14",
              "-O1 -g -fno-omit-frame-pointer -fsanitize=fuzzer-no-link,address,undefined "
-             "-fno-sanitize=alignment,nonnull-attribute,object-size,function "
+             "-fno-sanitize=alignment,nonnull-attribute,object-size,function,pointer-overflow "
              "-fno-sanitize-recover=all -D%s" % GUARD,
              ["mptcore", "mptio", "mptplot"]),
 }
@@ -194,3 +194,35 @@ def build_harness(bdir, leg, flavour="asan", repo=None):
 if __name__ == "__main__":
     fl = sys.argv[1] if len(sys.argv) > 1 else "asan"
     print(ensure_lib(fl))
+
+
+def build_fuzzer(bdir, leg, repo=None):
+    """libFuzzer target: harness sources + harness/fuzzrt/vf_fuzz.c against the `fuzz` flavour libs"""
+    repo = repo or repo_path()
+    cc, cxx, flags, _ = FLAVOURS["fuzz"]
+    flags = flags.replace("fuzzer-no-link", "fuzzer")
+    hdir = os.path.join(VERIF, "harness")
+    srcs = [os.path.join(hdir, s) for s in leg["src"]] + [os.path.join(hdir, "fuzzrt", "vf_fuzz.c")]
+    headers = [os.path.join(hdir, f) for f in sorted(os.listdir(hdir)) if f.endswith(".h")]
+    key = _file_hash(srcs + headers + [os.path.join(hdir, "common", "vf.h")])
+    odir = os.path.join(bdir, "h")
+    os.makedirs(odir, exist_ok=True)
+    exe = os.path.join(odir, "%s-%s" % (leg["name"], key))
+    if os.path.exists(exe):
+        return exe
+    with open(os.path.join(odir, "lock-" + leg["name"]), "w") as lk:
+        fcntl.flock(lk, fcntl.LOCK_EX)
+        if os.path.exists(exe):
+            return exe
+        inc = []
+        for i in INCLUDES:
+            inc += ["-I", os.path.join(repo, i)]
+        inc += ["-I", os.path.join(hdir, "common"), "-I", hdir]
+        libs = []
+        for l in leg.get("libs", ["mptcore"]):
+            d = os.path.join(bdir, LIBDIRS[l])
+            libs += ["-L" + d, "-Wl,-rpath," + d, "-l" + l]
+        _run([cc, "-std=gnu11"] + flags.split() + ["-Wall", "-Wno-unused-function"] + leg.get("cflags", []) + inc + srcs +
+             libs + ["-lm", "-ldl", "-o", exe + ".new"])
+        os.rename(exe + ".new", exe)
+    return exe
